@@ -196,6 +196,30 @@ def load_known_findings():
     return findings
 
 
+# Cross-cutting properties share units with the functional properties.  An obligation of such a unit is a *clause*
+# of the cross-cutting property only if it states that property (ownership / frame / well-formedness / refusal);
+# the functional postconditions of the same unit (entries, letters, balances, loop invariants ...) are context:
+# when they fail, the property that owns them reports the violation, and the cross-cutting check prints a NOTE.
+CROSS_CUTTING = {
+    "C15": {"kinds": {"ownership", "frame"}, "substr": [".own.", "unchanged", "untouched", "fresh", "independent", "copied", "not_written", "values_object", "same_list_object", "dim_list"]},
+    "C13": {
+        "kinds": {"frame"},
+        "substr": [".wf.", "raises", "refused", "unchanged", "untouched", "keeps_model_shape", "is_flodym_array", "is_ndarray", ".rank", ".shape[", "accepted", "over_the_stock_dimensions", "tables_are_arrays", "is_dimset", "letters_unique", "not_written"],
+    },
+}
+
+
+def is_clause(prop, unit, obname, kind):
+    import fnmatch
+
+    if any(fnmatch.fnmatch(obname, g) for g in unit.not_clauses.get(prop, ())):
+        return False
+    spec = CROSS_CUTTING.get(prop)
+    if spec is None or set(unit.props) <= set(CROSS_CUTTING):
+        return True
+    return kind in spec["kinds"] or any(t in obname for t in spec["substr"])
+
+
 def match_finding(findings, prop, uname, obname, sk):
     import fnmatch
 
@@ -250,6 +274,18 @@ def check_property(prop, tier="quick", seed=0, only_unit=None, jobs=None, verbos
     else:
         results = [run_job(j) for j in joblist]
 
+    if os.environ.get("FVC_DUMP_NAMES"):
+        import re
+
+        dump = {}
+        for res in results:
+            d = dump.setdefault(res["unit"], {})
+            for o in res.get("obligations", []):
+                d[re.sub(r"\[[^\]]*\]", "[*]", o["name"])] = o["kind"]
+            if res.get("bounded_names"):
+                for nm in res["bounded_names"]:
+                    d[re.sub(r"\[[^\]]*\]", "[*]", nm)] = "bounded"
+        json.dump(dump, open(os.environ["FVC_DUMP_NAMES"], "w"), indent=1)
     findings = load_known_findings()
     n_obl = n_dis = n_ref = n_und = 0
     backends = {}
@@ -266,6 +302,7 @@ def check_property(prop, tier="quick", seed=0, only_unit=None, jobs=None, verbos
     per_unit = {}
     bounded = {"jobs": 0, "evaluations": 0, "contract_clauses_evaluated": 0, "units": set()}
     bounded_fail = []
+    context_fail = []  # failing obligations that are not clauses of this (cross-cutting) property
     for res in results:
         u = units.UNITS[res["unit"]]
         paths += res["paths"]
@@ -287,6 +324,8 @@ def check_property(prop, tier="quick", seed=0, only_unit=None, jobs=None, verbos
                 f = match_finding(findings, prop, res["unit"], cf["obligation"], res["skeleton"])
                 if f:
                     known_hits.append((f, res["unit"], cf["obligation"], res["skeleton"]))
+                elif not is_clause(prop, u, cf["obligation"], "bounded"):
+                    context_fail.append((res["unit"], cf["obligation"]))
                 else:
                     bounded_fail.append((res["unit"], res["skeleton"], cf))
             continue
@@ -323,11 +362,16 @@ def check_property(prop, tier="quick", seed=0, only_unit=None, jobs=None, verbos
                 f = match_finding(findings, prop, res["unit"], o["name"], res["skeleton"])
                 if f:
                     known_hits.append((f, res["unit"], o["name"], res["skeleton"]))
+                elif not is_clause(prop, u, o["name"], o["kind"]):
+                    context_fail.append((res["unit"], o["name"]))
                 else:
                     violations.append((res, o))
             else:
                 n_und += 1
-                undecided.append((res["unit"], res["skeleton"], f"undecided obligation {o['name']}", res.get("conc_fail")))
+                if not is_clause(prop, u, o["name"], o["kind"]):
+                    context_fail.append((res["unit"], o["name"]))
+                else:
+                    undecided.append((res["unit"], res["skeleton"], f"undecided obligation {o['name']}", res.get("conc_fail")))
             if len(samples) < 6 and o["status"] == "proved" and o["backend"] != "ground":
                 samples.append({"unit": res["unit"], "skeleton": res["skeleton"], "obligation": o["name"], "path": o["path"], "status": o["status"], "backend": o["backend"]})
         if res.get("conc_fail") and not res["unsupported"] and not any(o["status"] in ("refuted", "undecided") for o in res["obligations"]):
@@ -369,6 +413,9 @@ def check_property(prop, tier="quick", seed=0, only_unit=None, jobs=None, verbos
             if f:
                 known_hits.append((f, uname, cf["obligation"], sk))
                 continue
+            if not is_clause(prop, units.UNITS[uname], cf["obligation"], "concrete"):
+                context_fail.append((uname, cf["obligation"]))
+                continue
             path = os.path.join(REPLAYS, f"{prop}_{uname}_{abs(hash(sk_id(sk))) % 10**8}.json")
             json.dump({"property": prop, "unit": uname, "skeleton": sk, "obligation": cf["obligation"], "why": why, "failing_input": cf, "verifier_output": why}, open(path, "w"), indent=1)
             lines.append(f"VIOLATION property={prop} replay={path}")
@@ -406,6 +453,8 @@ def check_property(prop, tier="quick", seed=0, only_unit=None, jobs=None, verbos
         suffix = "" if rp.get("how") in ("solver-model", "directed-search") else " no-failing-input-found"
         lines.append(f"VIOLATION property={prop} replay={path}{suffix}")
         exit_code = 1
+    for uname, obname in sorted(set(context_fail))[:12]:
+        lines.append(f"NOTE property={prop} unit={uname} obligation={obname} fails but is not a clause of {prop} (a functional postcondition of a shared unit; reported by the property that owns it)")
     shown = set()
     for f, uname, obname, sk in known_hits:
         if f["raw"] not in shown:
@@ -444,6 +493,7 @@ def check_property(prop, tier="quick", seed=0, only_unit=None, jobs=None, verbos
             "discharged": n_dis,
             "refuted": n_ref,
             "refuted_known_findings": len(known_hits),
+            "failing_obligations_owned_by_other_properties": len(set(context_fail)),
             "undecided": n_und,
             "checker_cmd": f"./check {prop} --tier {tier}",
             "trusted_base": TRUSTED_BASE,
